@@ -44,6 +44,9 @@ type Module struct {
 	extensions    []*Extension
 	belongsTo     *BelongsTo
 	configPtr     *bool
+
+	// nodes left out because one of their features is off, by the node that would hold them
+	featureOff map[Meta][]string
 }
 
 type BelongsTo struct {
